@@ -803,7 +803,7 @@ def preserve_shape(op, **kwargs):
     def el_op(op):
         return f"{op.children[0].children[0]} -> {op.children[0].children[0]}"
 
-    return globals()["op"](op, el_op=el_op, implicit_output="bijective", no_el_axis_permute=True, **kwargs)
+    return globals()["op"](op, el_op=el_op, implicit_output=0, no_el_axis_permute=True, **kwargs)
 
 
 _name_to_op = (
